@@ -34,6 +34,7 @@ type c06Case struct {
 	Places   [][]int `json:"places"`   // per feature: list of placements (-1 spec level, k device k)
 	Perm     []int   `json:"perm"`     // device order
 	Declared string  `json:"declared"` // declared cdiVersion
+	OneChar  bool    `json:"oneCharDigitName,omitempty"` // digit-first names are a single digit
 }
 
 func addFeature(e *specs.ContainerEdits, f int) {
@@ -63,6 +64,9 @@ func (c c06Case) build() *specs.Spec {
 			case f == fDigitName:
 				if p >= 0 {
 					devs[p].Name = fmt.Sprintf("%ddev", p)
+					if c.OneChar {
+						devs[p].Name = fmt.Sprintf("%d", p)
+					}
 				}
 			case f == fAnnot:
 				if p == -1 {
@@ -232,6 +236,7 @@ func TestC06Exhaustive(t *testing.T) {
 					}
 				}
 				var firstNeed string
+				c.OneChar = len(c.Places[fDigitName]) > 0 && count%2 == 0
 				for pi, perm := range perms {
 					c.Perm = perm
 					for vi, v := range declaredPool {
@@ -296,6 +301,7 @@ func genC06(t *rapid.T) c06Case {
 		}
 	}
 	c.Perm = rapid.Permutation(seq(nd)).Draw(t, "perm")
+	c.OneChar = rapid.Bool().Draw(t, "oneCharDigitName")
 	if rapid.IntRange(0, 3).Draw(t, "declKind") == 0 {
 		c.Declared = rapid.OneOf(rapid.SampledFrom(declaredPool), rapid.StringMatching(`[0-9v. ]{0,7}`), rapid.String()).Draw(t, "declared")
 		// a leading "v" is a stated don't-care
